@@ -20,7 +20,7 @@ import (
 // A Cmd is a program in a small closed command language; every generated build command is one of
 // these, so that its meaning is a simple function of its inputs (which the Coq model mirrors).
 type Cmd struct {
-	Op   string   `json:"op"`             // concat | copydir | listnames | const | envdump | fail | touchopt
+	Op   string   `json:"op"`             // concat | copydir | listnames | const | envdump | fail | touchopt | catall | usetool
 	Arg  string   `json:"arg,omitempty"`  // const: the text; fail: nothing; envdump: space separated variable names
 	Args []string `json:"args,omitempty"` // copydir: (unused); listnames: labels whose output dirs are listed
 }
@@ -30,6 +30,7 @@ type Target struct {
 	Kind     string            `json:"kind"` // genrule | filegroup | text_file | gentest
 	Srcs     []string          `json:"srcs,omitempty"`
 	Deps     []string          `json:"deps,omitempty"`
+	Tools    []string          `json:"tools,omitempty"` // genrule tools (labels); the op usetool reads them through $TOOLS
 	Outs     []string          `json:"outs,omitempty"`
 	OutDirs  []string          `json:"out_dirs,omitempty"`
 	Cmd      Cmd               `json:"cmd"`
@@ -67,6 +68,9 @@ func (s *Spec) Clone() *Spec {
 			c := *t
 			c.Srcs = append([]string{}, t.Srcs...)
 			c.Deps = append([]string{}, t.Deps...)
+			if t.Tools != nil {
+				c.Tools = append([]string{}, t.Tools...)
+			}
 			c.Outs = append([]string{}, t.Outs...)
 			c.OutDirs = append([]string{}, t.OutDirs...)
 			c.PassEnv = append([]string{}, t.PassEnv...)
@@ -175,6 +179,11 @@ func (c Cmd) Shell(label, logPath string) string {
 		return log + ` && echo "` + strings.Join(parts, " ") + `" > $OUTS`
 	case "fail":
 		return log + ` && echo doomed >&2 && exit 1`
+	case "catall": // every regular *.txt file the temporary directory holds for this package, in glob order: depends on the
+		// CONTENTS of the temporary directory, not on $SRCS
+		return log + ` && (cd $PKG_DIR && for f in *.txt; do if [ -f $f ]; then cat $f; fi; done) > $OUTS`
+	case "usetool": // the outputs of the tools (through $TOOLS), then the sources
+		return log + ` && cat $TOOLS $SRCS /dev/null > $OUTS`
 	case "sleepconcat": // like concat but sleeps first (scheduling variety)
 		return log + ` && sleep ` + c.Arg + ` && cat $SRCS /dev/null > $OUTS`
 	}
@@ -212,6 +221,9 @@ func (t *Target) Render(pkg, logPath string) string {
 			fmt.Fprintf(&b, "    output_dirs = %s,\n", pyList(t.OutDirs))
 		}
 		fmt.Fprintf(&b, "    cmd = %s,\n", pyStr(t.Cmd.Shell(label, logPath)))
+		if len(t.Tools) > 0 {
+			fmt.Fprintf(&b, "    tools = %s,\n", pyList(t.Tools))
+		}
 		if len(t.Deps) > 0 {
 			fmt.Fprintf(&b, "    deps = %s,\n", pyList(t.Deps))
 		}
